@@ -270,6 +270,14 @@ class ExprMixin:
 
     def _e_Compare(self, e, path):
         left = self.eval(e.left, path)
+        if len(e.ops) == 1 and self.hooks.get("compare_value"):
+            # operands whose comparison is not a bool (numpy arrays: element-wise)
+            right = self.eval(e.comparators[0], path)
+            for h in self.hooks["compare_value"]:
+                r = h(self, e.ops[0], left, right, path, e)
+                if r is not None:
+                    return r
+            return sv.SBool(self.compare(e.ops[0], left, right, path, e))
         res = []
         for op, rnode in zip(e.ops, e.comparators):
             guarded = bool(res)
@@ -560,6 +568,12 @@ class ExprMixin:
         if sv.same_leaf(a, b):
             return a.e == b.e
         if isinstance(a, sv._Leaf) and isinstance(b, sv._Leaf):
+            return z3.BoolVal(False)
+        if a is b:
+            return z3.BoolVal(True)
+        if a.__class__ is not b.__class__ and (isinstance(a, (sv._Leaf, sv.SPy)) or isinstance(b, (sv._Leaf, sv.SPy))) \
+                and not isinstance(a, sv.SUnion) and not isinstance(b, sv.SUnion):
+            # objects of different kinds (a scalar / a module constant and a container or array) are never the same object
             return z3.BoolVal(False)
         raise Unsupported(f"identity test of {a} and {b}")
 
@@ -879,6 +893,11 @@ class ExprMixin:
             return Seq(it.keys.n, it.keys.at)
         if isinstance(it, sv.SPy) and it.what == "seq":
             return it.payload
+        if isinstance(it, sv.SPy) and it.what == "class" and self.is_enum(it.payload):
+            # iterating an Enum class: its members in definition order
+            ci = it.payload
+            lst = self.list_of([self.enum_member(ci, n) for n in ci.consts])
+            return Seq(lst.n, lst.at)
         if isinstance(it, sv.SSet):
             # iteration over a set: some enumeration without repetition that covers the set
             tag = sv.uid("setit")
